@@ -39,7 +39,13 @@ MANIFEST = {
             'zeros, non-ASCII digits, signs, several points) only inserts '
             'separators, groups of three from the right, and equal numbers '
             'of different types (1000, 1000.0, Decimal, True/1/1.0) '
-            'rendered one after the other each print their own text.',
+            'rendered one after the other each print their own text; (fmt) '
+            'the fmt= stage alone against what it is: 16 %-formats applied '
+            'to the value (same text or same exception class as Python), '
+            '13 method formats (the method of the value is called), the '
+            'dollar / length formats against their closed forms, the '
+            'deprecated named formats equal to the like-named modifier on '
+            'strings; each also with null= at either end.',
     'note': 'Trusted: the closed forms in this driver (Python str methods, '
             'format(n, ","), urllib round trip as identity, the truncation '
             'rule as stated).  The inner order of several modifiers is not '
@@ -150,6 +156,7 @@ def cases(tier):
     yield {'fam': 'commas'}
     yield {'fam': 'defraise'}
     yield {'fam': 'cfmt'}
+    yield {'fam': 'fmt'}
     for i in range(len(TEXTS)):
         yield {'fam': 'trunc', 'value': 'str:%d' % i}
         yield {'fam': 'trunc', 'value': 'bytes:%d' % i}
@@ -557,6 +564,100 @@ def run_cfmt(res, case):
     res.sample = {'tag': '%(x)5s', 'law': "'%5s' % (value,)"}
 
 
+# ---------------------------------------------------------------- fmt
+
+FMT_PCT = ['%s!', '[%s]', '%5s|', '%-5s|', '%.3s', '%d', '%05d', '%.2f', '%x',
+           '%e', '%r', '%%', '%s and %s', 'plain words', '%', '%q']
+FMT_METHODS = ['m', 'upper', 'lower', 'title', 'strip', 'swapcase',
+               'capitalize', 'bit_length', 'is_integer', 'hex', 'copy',
+               'keys', 'isoformat']
+FMT_SAME_AS_MODIFIER = {'sql-quote': 'sql_quote', 'html-quote': 'html_quote',
+                        'url-quote': 'url_quote',
+                        'url-quote-plus': 'url_quote_plus',
+                        'url-unquote': 'url_unquote',
+                        'url-unquote-plus': 'url_unquote_plus',
+                        'multi-line': 'newline_to_br',
+                        'comma-numeric': 'thousands_commas'}
+
+
+def _outcome(f):
+    try:
+        return ('ok', f())
+    except Exception as e:
+        return ('exc', type(e).__name__)
+
+
+def _dollars(v, pattern, grouped):
+    try:
+        pattern % v
+    except Exception:
+        return ''
+    if grouped:
+        return '$' + format(int(v) if pattern == '$%d' else v,
+                            ',d' if pattern == '$%d' else ',.2f')
+    return pattern % v
+
+
+def run_fmt(res, case):
+    """the fmt= stage on its own, against what it is documented to be: a
+    method of the value is called, a %-format is applied to the value, the
+    named formats are the dollar / length formats or the like-named
+    modifier.  With null= (and a non-null value) the result is the same."""
+    n = nt = 0
+    for vid, v in all_values():
+        kind = vid.split(':')[0].rstrip('0123456789-')
+        null = v is None or (not v and v != 0)
+        plans = []
+        if not isinstance(v, (tuple, dict)):
+            for f in FMT_PCT:
+                plans.append(('pct', 'fmt="%s"' % f,
+                              _outcome(lambda: f % v), False))
+        for f in FMT_METHODS:
+            if callable(getattr(v, f, None)):
+                plans.append(('method', 'fmt=%s' % f,
+                              _outcome(lambda: getattr(v, f)()), True))
+        if not isinstance(v, (tuple, dict)):
+            for f, pat, grouped in (
+                    ('whole-dollars', '$%d', False),
+                    ('dollars-and-cents', '$%.2f', False),
+                    ('dollars-with-commas', '$%d', True),
+                    ('dollars-and-cents-with-commas', '$%.2f', True)):
+                plans.append(('special', 'fmt=' + f,
+                              ('ok', _dollars(v, pat, grouped)), True))
+        plans.append(('special', 'fmt=collection-length',
+                      _outcome(lambda: str(len(v))), True))
+        for f, m in FMT_SAME_AS_MODIFIER.items():
+            if not isinstance(v, (str, bytes)):
+                break       # the format receives the value, not its text
+            plans.append(('as-modifier', 'fmt=' + f, rend(tag([m]), x=v),
+                          True))
+        for what, opt, want, in_epfs in plans:
+            if want[0] == 'ok':
+                want = ('ok', as_text(want[1]))
+            variants = [(tag([opt]), False, want)]
+            if in_epfs:
+                variants.append((tag([opt], True), True, want))
+            variants.append((tag([opt, 'null="N_n"']), False,
+                             ('ok', 'N_n') if null else want))
+            variants.append((tag(['null="N_n"', opt]), False,
+                             ('ok', 'N_n') if null else want))
+            for src, epfs, exp in variants:
+                got = rend(src, epfs, x=v)
+                n += 1
+                nt += 1
+                if got[0] == 'ok':
+                    got = ('ok', as_text(got[1]))
+                if got != exp and not same_out(got, exp):
+                    res.violate('fmt', 'fmt:%s:%s:%s' % (
+                        what, opt.split('=')[1].strip('"') if what != 'pct'
+                        else 'pct', kind),
+                        {'value': repr(v), 'source': src, 'got': repr(got),
+                         'expected': repr(exp)})
+    res.evals = n
+    res.nt_count = nt
+    res.sample = {'tag': tag(['fmt="%05d"']), 'law': "'%05d' % value"}
+
+
 def run_defined_raises(res, case):
     """missing= is for *undefined* names only: a defined name whose callable
     (or sub-template) raises, also a KeyError, propagates that error"""
@@ -596,7 +697,7 @@ def run_defined_raises(res, case):
                   'raises KeyError'}
 
 
-RUNNERS = {'cfmt': run_cfmt, 'defraise': run_defined_raises, 'perm': run_perm, 'law': run_law, 'commas': run_commas, 'round': run_round,
+RUNNERS = {'fmt': run_fmt, 'cfmt': run_cfmt, 'defraise': run_defined_raises, 'perm': run_perm, 'law': run_law, 'commas': run_commas, 'round': run_round,
            'trunc': run_trunc, 'stage': run_stage, 'null': run_null}
 
 
